@@ -95,6 +95,10 @@ def gen_copy_mutants(repo):
             t2 = copy.deepcopy(tree)
             c2 = [n for n in ast.walk(t2) if isinstance(n, ast.Call) and ast.unparse(n.func) == "copy.deepcopy"][ci]
             c2.func = ast.Attribute(value=ast.Name(id="copy", ctx=ast.Load()), attr="copy", ctx=ast.Load())
+            if mod in ("conditions.py", "datapath.py") or "'cast'" in txt:
+                # flat structures / callees that copy again: a shallow copy is enough here, the edit is behaviour-preserving
+                yield (f"deepcopy->copy(neutral):{mod}:{txt[:40]}", mod, _emit(t2), None, "neutral")
+                continue
             p = props if "spec" not in txt else {"C16"}
             yield (f"deepcopy->copy:{mod}:{txt[:40]}", mod, _emit(t2), p, "break")
 
@@ -142,6 +146,9 @@ def gen_eq_mutants(repo):
                 for vi, v in enumerate(a.values):
                     if "type(" in ast.unparse(v) or "super()" in ast.unparse(v):
                         continue
+                    if "rule_tests" in ast.unparse(v) or "is_concrete" in ast.unparse(v):
+                        # not part of the definition (result slot) / a function of `parts`: dropping it preserves behaviour
+                        continue
                     if len(a.values) < 2:
                         continue
                     t2 = copy.deepcopy(tree)
@@ -187,7 +194,7 @@ def gen_text_mutants(repo):
         ("schema.py", "return ValidatedData(self, data)", "self.rule_tests = ValidatedData(self, data).rule_tests\n        return ValidatedData(self, data)", {"C08", "C13"}, "validate-stores-on-schema", None),
         ("rules.py", "return RuleTest(self, data_copy)", "return RuleTest(self, data)", {"C05", "C15"}, "judge-original-not-copy", None),
         ("rules.py", "if not f_item.result:", "if not f_item.result and len(failures) < 1:", {"C05"}, "record-only-first-failure", None),
-        ("rules.py", "path_exists = sub_data not in [None, []]", "path_exists = sub_data is not None", {"C05"}, "weaken-path-exists", None),
+        ("rules.py", "path_exists = sub_data not in [None, []]", "path_exists = sub_data is not None", {"C05"}, "weaken-path-exists", "RuleTest._test"),
         ("rules.py", "source_data=self.data,", "source_data=None,", {"C05", "C17"}, "drop-source-document", None),
         ("conditions.py", "return isinstance(self, NullCondition)", "return self.callable.func is call_funcs.null if hasattr(self, 'callable') else False", {"C02"}, "null-by-callable", None),
         ("conditions.py", "return ConditionOr(self, other)", "return ConditionXor(self, other)", {"C02"}, "or-builds-xor", None),
